@@ -69,7 +69,28 @@ func c17ReadHist(p string) (c17HistFile, bool) {
 }
 
 func c17UniqueDB(r *rand.Rand, n int, platforms int) []vlib.Cmd {
-	cmds := vlib.GenCommands(r, vlib.DBSpec{N: n, Platforms: platforms, Pipelines: true, MixedCase: true})
+	cmds := vlib.GenCommands(r, vlib.DBSpec{N: n, Platforms: platforms, Pipelines: true, MixedCase: true, Unicode: true})
+	// entries that stress the formatters: long multi-byte commands and categories (byte length and rune count
+	// far apart), very long ASCII ones, text with tabs and ANSI-looking brackets
+	wide := []string{"日本語のコマンド名はとても長いですがルーンの数は少ないです", "файловая-система-команда-для-поиска-и-замены-текста", "αρχείο-συμπίεσης-και-αποσυμπίεσης-δεδομένων-εδώ",
+		"emoji 😀😀😀😀😀😀😀😀😀😀😀😀😀😀😀😀😀😀 tool", strings.Repeat("averyveryverylongcommandname-", 4), "tab\there [0m not-an-escape"}
+	for i, w := range wide {
+		if len(cmds) == 0 {
+			break
+		}
+		k := (i * 7) % len(cmds)
+		c := cmds[k]
+		switch r.Intn(3) {
+		case 0:
+			c.Command = w + " " + c.Command
+		case 1:
+			c.Niche = w
+		default:
+			c.Command = c.Command + " " + w
+			c.Niche = "分類カテゴリ名称長い長い長い"
+		}
+		cmds[k] = c
+	}
 	seen := map[string]bool{}
 	out := cmds[:0]
 	for _, c := range cmds {
@@ -247,6 +268,7 @@ func engineCLISearch(ctx *Ctx) {
 			// printed results
 			printedN := -1
 			var printed vlib.Ranked
+			var unmatched []string
 			lower := strings.ToLower(format)
 			switch lower {
 			case "json":
@@ -261,6 +283,7 @@ func engineCLISearch(ctx *Ctx) {
 					i, ok := idx[it.Command+"\x00"+it.Description]
 					if !ok {
 						i = -1
+						unmatched = append(unmatched, fmt.Sprintf("%q / %q", it.Command, it.Description))
 					}
 					sc := it.Score
 					printed = append(printed, vlib.Item{Idx: i, Score: sc})
@@ -315,7 +338,14 @@ func engineCLISearch(ctx *Ctx) {
 					case "violated":
 						ctx.R.Violate(vlib.Violation{Property: "C17", Clause: "printed-differs-from-engine", Path: path,
 							Detail:  "printed results are not the engine's results in rank order: " + why,
-							Witness: map[string]interface{}{"case": cs, "engine": refs[0], "printed": printed}})
+							Witness: map[string]interface{}{"case": cs, "engine": refs[0], "printed": printed, "printed_items_not_in_database": unmatched,
+								"engine_entries": func() []string {
+									var o []string
+									for _, x := range refRes {
+										o = append(o, fmt.Sprintf("%q / %q", x.Command.Command, x.Command.Description))
+									}
+									return o
+								}()}})
 					case "inconclusive":
 						ctx.R.Inconcl("engine reference unstable")
 					default:
